@@ -115,7 +115,7 @@ impl<T> Window<T> {
 	ensures
 		(index as int) < self.cap() ==> r == Some(&self.view()[self.cap() - 1 - index as int]),
 		(index as int) >= self.cap() ==> r is None,
-//@hint before self.buf.get
+//@hint after let buf_index
 	proof {
 		if (index as int) < self.cap() { lemma_mod_index(self.index as int, self.cap() - 1 - index as int, self.size as int); }
 	}
